@@ -236,6 +236,10 @@ func (f *function) newThread() *starlark.Thread {
 }
 
 func (f *function) evaluate() (data string, changed bool, err error) {
+	// Deliver the body's output to the event sink that is current while it runs: run(callback=...)
+	// installs its own for the duration of a run, and the output belongs between the evaluating and
+	// completion events that sink receives.
+	f.out.events = f.proj.events
 	defer f.out.Flush()
 
 	var args starlark.Tuple
